@@ -597,6 +597,128 @@ fn run_iter(src: &str) -> String {
     }
 }
 
+// ---- hand-built trees: Node has no public constructor, but operator_mut()/children_mut() reach every shape ----
+fn parse_tree_text(s: &str) -> (Node<DefaultNumericTypes>, &str) {
+    assert!(s.starts_with('('), "tree text: {}", s);
+    let s = &s[1..];
+    // operator: up to ' ' or ')' at depth 0 (values may contain parentheses)
+    let mut depth = 0i32;
+    let mut end = s.len();
+    for (i, ch) in s.char_indices() {
+        match ch {
+            '(' => depth += 1,
+            ')' if depth > 0 => depth -= 1,
+            ')' | ' ' if depth == 0 => {
+                end = i;
+                break;
+            },
+            _ => {},
+        }
+    }
+    let opname = &s[..end];
+    let op: Operator<DefaultNumericTypes> = if let Some(v) = opname.strip_prefix("Const:") {
+        Operator::Const { value: parse_value(v) }
+    } else if let Some(h) = opname.strip_prefix("Write:") {
+        Operator::VariableIdentifierWrite { identifier: unhex(h) }
+    } else if let Some(h) = opname.strip_prefix("Read:") {
+        Operator::VariableIdentifierRead { identifier: unhex(h) }
+    } else if let Some(h) = opname.strip_prefix("Fn:") {
+        Operator::FunctionIdentifier { identifier: unhex(h) }
+    } else {
+        use Operator::*;
+        match opname {
+            "RootNode" => RootNode, "Add" => Add, "Sub" => Sub, "Neg" => Neg, "Mul" => Mul, "Div" => Div, "Mod" => Mod,
+            "Exp" => Exp, "Eq" => Eq, "Neq" => Neq, "Gt" => Gt, "Lt" => Lt, "Geq" => Geq, "Leq" => Leq, "And" => And,
+            "Or" => Or, "Not" => Not, "Assign" => Assign, "AddAssign" => AddAssign, "SubAssign" => SubAssign,
+            "MulAssign" => MulAssign, "DivAssign" => DivAssign, "ModAssign" => ModAssign, "ExpAssign" => ExpAssign,
+            "AndAssign" => AndAssign, "OrAssign" => OrAssign, "Tuple" => Tuple, "Chain" => Chain,
+            other => panic!("operator {}", other),
+        }
+    };
+    let mut rest = &s[end..];
+    let mut children = vec![];
+    loop {
+        if let Some(r) = rest.strip_prefix(')') {
+            rest = r;
+            break;
+        }
+        let r = rest.strip_prefix(' ').expect("space");
+        let (c, r2) = parse_tree_text(r);
+        children.push(c);
+        rest = r2;
+    }
+    let mut node = build_operator_tree::<DefaultNumericTypes>("").unwrap();
+    *node.operator_mut() = op;
+    *node.children_mut() = children;
+    (node, rest)
+}
+
+fn run_hand(text: &str) -> String {
+    let (mut n, rest) = parse_tree_text(text);
+    assert!(rest.is_empty());
+    let rec = Recorder::default();
+    let mut ctx = Ctx::new();
+    ctx.set_value("a".into(), Value::Int(3)).unwrap();
+    ctx.set_value("b".into(), Value::Float(2.5)).unwrap();
+    ctx.set_value("c".into(), Value::String("xy".into())).unwrap();
+    ctx.set_value("x".into(), Value::Boolean(true)).unwrap();
+    ctx.set_value("y".into(), Value::Tuple(vec![Value::Int(1), Value::Int(2)])).unwrap();
+    ctx.set_function("f".into(), lib_function("f".into(), "id", rec.clone())).unwrap();
+    ctx.set_function("h".into(), lib_function("h".into(), "fail:626f6f6d", rec.clone())).unwrap();
+    let same = tree_text(&n) == text;
+    std::hint::black_box(format!("{} {:?}", n, n));
+    let ro = n.eval_with_context(&ctx);
+    touch_fmt(&ro);
+    let ro_log: Vec<String> = rec.log.lock().unwrap().drain(..).map(|(f, v)| format!("{}({})", hex(f), value_text(&v))).collect();
+    let mut c2 = ctx.clone();
+    let mt = n.eval_with_context_mut(&mut c2);
+    touch_fmt(&mt);
+    let mut vars: Vec<(String, String)> = c2.iter_variables().map(|(k, v)| (hex(k), value_text(&v))).collect();
+    vars.sort();
+    let mt_log: Vec<String> = rec.log.lock().unwrap().drain(..).map(|(f, v)| format!("{}({})", hex(f), value_text(&v))).collect();
+    let nodes: Vec<String> = n.iter().map(|x| op_text(x.operator())).collect();
+    let ids: Vec<String> = n.iter_identifiers().map(hex).collect();
+    let vars_i: Vec<String> = n.iter_variable_identifiers().map(hex).collect();
+    let ops: Vec<String> = n.iter_operators_mut().map(|o| op_text(o)).collect();
+    let show = hex(format!("{}", n));
+    format!(
+        "same={} ro={} rolog[{}] mut={} vars{{{}}} mutlog[{}] nodes[{}] ops[{}] ids[{}] vids[{}] show={}",
+        same as u8, result_text(&ro), ro_log.join(","), result_text(&mt),
+        vars.iter().map(|(k, v)| format!("{}={}", k, v)).collect::<Vec<_>>().join(","),
+        mt_log.join(","), nodes.join(","), ops.join(","), ids.join(","), vars_i.join(","), show
+    )
+}
+
+// ---- the public accessors and conversions of Value ----
+fn run_val(text: &str) -> String {
+    use std::convert::TryFrom;
+    let v = parse_value(text);
+    let r = |x: Result<V, E>| result_text(&x);
+    let u = |x: Result<(), E>| unit_text(&x);
+    let parts = vec![
+        format!("is={}{}{}{}{}{}{}", v.is_string() as u8, v.is_int() as u8, v.is_float() as u8, v.is_number() as u8, v.is_boolean() as u8, v.is_tuple() as u8, v.is_empty() as u8),
+        format!("str={}", r(v.as_string().map(Value::String))),
+        format!("int={}", r(v.as_int().map(Value::Int))),
+        format!("float={}", r(v.as_float().map(Value::Float))),
+        format!("num={}", r(v.as_number().map(Value::Float))),
+        format!("bool={}", r(v.as_boolean().map(Value::Boolean))),
+        format!("tup={}", r(v.as_tuple().map(Value::Tuple))),
+        format!("fix0={}", r(v.as_fixed_len_tuple(0).map(Value::Tuple))),
+        format!("fix2={}", r(v.as_fixed_len_tuple(2).map(Value::Tuple))),
+        format!("rng13={}", r(v.as_ranged_len_tuple(1..=3).map(Value::Tuple))),
+        format!("rng00={}", r(v.as_ranged_len_tuple(0..=0).map(Value::Tuple))),
+        format!("empty={}", u(v.as_empty())),
+        format!("strfrom={}", hex(v.str_from())),
+        format!("tfs={}", r(String::try_from(v.clone()).map(Value::String))),
+        format!("tfb={}", r(bool::try_from(v.clone()).map(Value::Boolean))),
+        format!("tft={}", r(TupleType::try_from(v.clone()).map(Value::Tuple))),
+        format!("tfe={}", u(<()>::try_from(v.clone()))),
+        format!("type={:?}", ValueType::from(&v)),
+        format!("eq={}", (v == v.clone()) as u8),
+    ];
+    parts.join(" ")
+}
+
 // Display of the tree and Display/Debug of the evaluation result, as hex (the formatting code is modelled too)
 fn run_show(src: &str) -> String {
     let mut ctx = Ctx::new();
@@ -645,6 +767,8 @@ fn run_case(line: &str) -> String {
         "SCRIPT" => run_script(f[2], f.get(3).copied().unwrap_or("")),
         "ITER" => run_iter(&unhex(f[2])),
         "SHOW" => run_show(&unhex(f.get(2).copied().unwrap_or(""))),
+        "HAND" => run_hand(f[2]),
+        "VAL" => run_val(f[2]),
         #[cfg(feature = "serde")]
         "SERDEN" => serde_cases::node_case(&unhex(f[2])),
         #[cfg(feature = "serde")]
